@@ -22,13 +22,17 @@ MANIFEST = dict(
          'interpreter, every input set, every processing order: after UniqueNameGenerator.reset() the i-th name is prefix+base+'
          '(number of earlier calls with the same (key, base) in THIS file)+suffix; memo tables (lru_cache, any maxsize, cleared at '
          'any time) are transparent; the object built for a type is the same in every input set that contains its dependency '
-         'closure; the content of a file equals the content the same type gets as the first and only file of a new interpreter '
+         'closure; the template selected for a file is the nearest one of its pydsdl class chain in the generator\'s listing, '
+         'whatever the loader memo saw before (C16 lemmas imported; class graph a forest: hypothesis, tested per run); with the '
+         'translated per-file reset of the line processors the file is the same in any two histories (C10_file_indep, no side '
+         'condition); for the variant without that reset (code before 88d3c81): the content of a file equals the content the same type gets as the first and only file of a new interpreter '
          'whenever the LimitEmptyLines counters of its generator are 0 when the file is started (file_indep_partial; that this '
          'holds when every file ends in a non-blank line is tested per history, not proved); the unrestricted '
-         'statement is refuted by witness (known finding F-LEL-LEAK) and proved for the variant without the shared counter. '
+         'statement is refuted by witness (finding F-LEL-LEAK, now fixed; the check reports a violation if the probe reproduces it). '
          'Tie: UniqueNameGenerator and LimitEmptyLines are re-translated from /repo on every run, the position of reset() in '
          '_generate_code is a translated fact; the extracted model is run on the same histories as the real DSDLCodeGenerator '
-         '(user templates written from random scripts: exact bytes; built-in c/cpp/py/html templates: recorded chunk streams '
+         '(user template SETS named after random levels of the pydsdl hierarchy, each file carrying a marker naming the template, '
+         'written from random scripts over structs/unions/services/delimited types: exact bytes and selected template; built-in c/cpp/py/html templates: recorded chunk streams '
          'replayed through the model, exact bytes) over whole namespace / dependency-closed subsets / permuted order / second '
          'runs / other-option generators / cleared caches in one interpreter and against new interpreters.',
     note='Trusted: Coq kernel; T2 translators (pyfun_tr.py, gen_c10.py); extraction (ExtrOcamlBasic only) + ocaml/c10_driver.ml; '
@@ -80,13 +84,15 @@ def enc_pps(pps) -> str:
 # the property as an executable oracle (independent of nunavut and of the Coq model): the file of a type is a function of
 # its own script (its own unique-name calls, its own text) and of the configured processors, nothing else
 # ---------------------------------------------------------------------------------------------------------------
-def script_text(script, lang: str) -> str:
+def script_text(script, lang: str, mark: str = '') -> str:
     counts: typing.Dict[typing.Tuple[str, str], int] = {}
     key, pre, suf = UNIQ_ARGS[lang]
     out = []
     for it in script:
         if it[0] == 't':
             out.append(it[1])
+        elif it[0] == 'k':
+            out.append(mark)
         elif it[0] == 'u':
             n = counts.get((key, it[1]), 0)
             counts[(key, it[1])] = n + 1
@@ -272,6 +278,8 @@ def model_request(deps: typing.Dict[str, typing.List[str]], tables: typing.Dict[
         for it in script:
             if it[0] == 't':
                 items.append('t:' + enc(it[1]))
+            elif it[0] == 'k':
+                items.append('k')
             else:
                 items.append('u:%s:%s:%s:%s' % (enc(key), enc(it[1]), enc(pre), enc(suf)))
         lines.append(' '.join(['T', str(cf), enc(k)] + items))
@@ -326,7 +334,7 @@ class Hist:
         self.gens: typing.List[dict] = []          # per generator: cfg id, lang, subset (list of tids), step index
         self.cfgs: typing.Dict[int, dict] = {}       # cfg id -> {'lang','lang_opts','templates','scripts'}
         self.hashseed = 0
-        self.markers = kind == 'script'
+        self.markers = False          # leading marker of the model's table_render (scripts carry their own 'k' items)
 
     def new(self, cfg: int, subset=None, pps=None) -> int:
         c = self.cfgs[cfg]
@@ -362,23 +370,26 @@ def gen_template_set(rng) -> typing.List[str]:
 def script_templates(sp: Space, scripts: typing.Dict[str, list], lang: str, const_args: bool = False,
                      names: typing.Sequence[str] = ('StructureType', 'UnionType', 'ServiceType', 'DelimitedType'),
                      marker: bool = True) -> typing.Dict[str, str]:
-    """user templates named after the given pydsdl classes: each starts with a marker naming the file, then an if/elif chain
+    """user templates named after the given pydsdl classes: an if/elif chain (script item k renders a marker naming the file)
     over the type's name and version"""
-    parts = []
-    for i, tid in enumerate(sp.order):
+    def chain(fname: str) -> str:
+      parts = []
+      for i, tid in enumerate(sp.order):
         full, major, minor = tid.rsplit('.', 2)
         cond = 'T.full_name == "%s" and T.version.major == %s and T.version.minor == %s' % (full, major, minor)
         body = []
         for it in scripts[tid]:
             if it[0] == 't':
                 body.append(it[1])
+            elif it[0] == 'k':
+                body.append('<%s>' % fname)
             elif it[0] == 'u':
                 body.append('{{ %s }}' % ((UNIQ_EXPR['c'] if const_args else UNIQ_EXPR[lang]) % it[1]))
             elif it[0] == 'id':
                 body.append('{{ T.full_name }}')
         parts.append('{%% %s %s %%}%s' % ('if' if i == 0 else 'elif', cond, ''.join(body)))
-    text = ''.join(parts) + '{% endif %}'
-    out = {n + '.j2': ('<%s.j2>' % n if marker else '') + text for n in names}
+      return ''.join(parts) + '{% endif %}'
+    out = {n + '.j2': chain(n + '.j2') for n in names}
     out['Namespace.j2'] = ''
     return out
 
@@ -405,6 +416,8 @@ def gen_script(rng, tid: str) -> list:
         items.append(['t', rng.choice(['\n', 'z\n\n', '\n\n', 'z \n \n', '\n\n\n'])])   # file ends with blank lines
     elif style == 3:
         items.append(['t', rng.choice(['z', 'z\n', 'end'])])
+    # the marker naming the template file goes somewhere inside, so that files can still start and end with blank lines
+    items.insert(rng.randrange(0 if rng.random() < 0.15 else 1, max(len(items), 2)), ['k'])
     return items
 
 
@@ -633,9 +646,19 @@ def main(chk: core.Check, replay: typing.Optional[str] = None) -> int:
     kf_live = False
     if not w_errs and len(w_entries) == 3:
         kf_live = w_entries[1]['text'] != w_entries[2]['text']
-    if kf_live and chk.is_known(FID):
+    elif not w_errs:
+        broken.append('F-LEL-LEAK probe did not produce three files')
+    # status known + reproduces: quirk model, KNOWN-FINDING line, its instances are not violations.  status fixed (or not
+    # listed): nothing is printed and nothing is suppressed -- if the leak is back every instance is a violation.
+    lel_suppress = kf_live and chk.is_known(FID)
+    if lel_suppress:
         chk.report_known(FID, 'B generated after A: %r, B generated alone: %r' % (w_entries[1]['text'], w_entries[2]['text']))
-    lel_shared = kf_live
+    elif kf_live:
+        broken.append('F-LEL-LEAK (recorded as fixed) reproduces again: LimitEmptyLines counter leaks from file to file')
+    lel_shared = kf_live           # the model follows the probed behaviour so that only real deviations break the correspondence
+    for m in res.translator_msgs:
+        if m.startswith('uniq:') and ('generate_code_resets_line_pps=%s' % (not kf_live)) not in m:
+            broken.append('translated fact generate_code_resets_line_pps contradicts the probe (leak %s)' % ('present' if kf_live else 'absent'))
     f_entries, _, f_errs = line_up(hists[1], results[1]['out'])
     fold_live = (not f_errs) and len(f_entries) == 2 and f_entries[0]['text'] != f_entries[1]['text']
     if fold_live and chk.is_known(FID_FOLD):
@@ -748,7 +771,7 @@ def main(chk: core.Check, replay: typing.Optional[str] = None) -> int:
             if h.kind == 'script':
                 script = h.cfgs[e['cfg']]['scripts'][e['key']]
                 sel = oracle_select(e['cls'], e['tset'])
-                expect = alone_oracle(('<%s>' % (sel or '') if h.markers else '') + script_text(script, lang), e['pps'])
+                expect = alone_oracle(script_text(script, lang, '<%s>' % (sel or '')), e['pps'])
                 uses_uniq = any(it[0] == 'u' for it in script)
             else:
                 k = (lang, e['cfg'], e['key'])
@@ -776,7 +799,7 @@ def main(chk: core.Check, replay: typing.Optional[str] = None) -> int:
                 stats['known_finding_instances'] += 1
                 stats['pickle_memo_instances'] = stats.get('pickle_memo_instances', 0) + 1
             elif e['text'] != expect:
-                if kf_live and trigger and me is not None and me['text'] == (e['text'] if h.kind == 'script' else skel(e['text'])) and not me['clean']:
+                if lel_suppress and trigger and me is not None and me['text'] == (e['text'] if h.kind == 'script' else skel(e['text'])) and not me['clean']:
                     stats['known_finding_instances'] += 1
                 else:
                     bad_oracle.append({'history': h.name, 'file_index': i, 'type': e['key'], 'lang': lang, 'expected': expect,
